@@ -186,7 +186,7 @@ static void run_buffers(uint64_t idx, pv_rng* rng) {
     const uint8_t* in; uint8_t* heap = NULL;
     bool ro = idx % 8 == 3;
     if (ro) { mprotect(g_ro, (size_t)g_ps * RO_PAGES, PROT_READ | PROT_WRITE); uint8_t* p = g_ro + (size_t)g_ps * RO_PAGES - 32; memcpy(p, b, 32); mprotect(g_ro, (size_t)g_ps * RO_PAGES, PROT_READ); in = p; PV_COUNT("inputs.on_readonly_page_before_guard", 1); }
-    else { heap = malloc(32); memcpy(heap, b, 32); in = heap; }
+    else { size_t off = idx % 8; heap = malloc(32 + off); memcpy(heap + off, b, 32); in = heap + off; }       /* byte array: any alignment */
     bool armed = idx % 16 == 5; if (armed) pv_w->fail_countdown = 1;
     int live0 = pv_ledger_live();
     polyseed_data* s = NULL; int st = pv_api_load(in, &s);
